@@ -13,7 +13,7 @@ func init() {
 	gens["C08"] = c08Gen
 	execs["C08"] = execC08
 	gens["C09"] = func(r *RNG, id string) *Case {
-		c := c08Gen(r, id)
+		c := c08GenOpt(r, id, true)
 		for c.Get("sizetotal") == "0" && c.Get("sizeup") == "0" && c.Get("sizedown") == "0" && c.Get("sizeside") == "0" && c.Get("sizesame") == "0" &&
 			c.Get("distall") == "0" && c.Get("distup") == "0" && c.Get("distdown") == "0" && c.Get("distside") == "0" && c.Get("distpush") == "0" {
 			c.SetInt("sizetotal", r.Range(1, 20))
@@ -51,7 +51,9 @@ func seqFromPool(r *RNG, ref string, pool [][2]int, take int, amb int) string {
 	return string(b)
 }
 
-func c08Gen(r *RNG, id string) *Case {
+func c08Gen(r *RNG, id string) *Case { return c08GenOpt(r, id, false) }
+
+func c08GenOpt(r *RNG, id string, allowComma bool) *Case {
 	c := NewCase("C08", id)
 	w := r.Range(6, 60)
 	ref := randSeq(r, w, symACGT, false)
@@ -92,8 +94,8 @@ func c08Gen(r *RNG, id string) *Case {
 		ts = append(ts, seqFromPool(r, ref, pool, r.Range(0, 5), r.PickInt([]int{0, 0, 0, 1, 2, 3})))
 	}
 	c.Set("ref", ref)
-	c.Set("qnames", strings.Join(randNames(r, nq, "Q"), ",")).Set("qseqs", strings.Join(qs, ","))
-	tn := randNames(r, nt, "T")
+	c.Set("qnames", strings.Join(randNamesCSV(r, nq, "Q", allowComma), ",")).Set("qseqs", strings.Join(qs, ","))
+	tn := randNamesCSV(r, nt, "T", allowComma)
 	c.Set("tnames", strings.Join(tn, ",")).Set("tseqs", strings.Join(ts, ","))
 	// option sets
 	o := map[string]int{"sizetotal": 0, "sizeup": 0, "sizedown": 0, "sizeside": 0, "sizesame": 0, "distall": 0, "distup": 0, "distdown": 0, "distside": 0, "distpush": 0}
@@ -146,7 +148,7 @@ func runTopRanking(c *Case, qtype, ttype string, qTxt, tTxt string) result {
 	refTxt := renderFasta([]string{"reference"}, []string{c.Get("ref")}, layout{})
 	var ign []string
 	if c.Get("ignore") != "" {
-		ign = strings.Split(c.Get("ignore"), ",")
+		ign = splitNames(c.Get("ignore"))
 	}
 	g := func(k string) int { return atoi(c.Get(k)) }
 	thr := float32(g("thrn")) / float32(max1(g("thrd")))
@@ -160,8 +162,8 @@ func runTopRanking(c *Case, qtype, ttype string, qTxt, tTxt string) result {
 }
 
 func trInputs(c *Case) (qFa, tFa string) {
-	qFa = renderFasta(strings.Split(c.Get("qnames"), ","), strings.Split(c.Get("qseqs"), ","), layout{width: 50})
-	tFa = renderFasta(strings.Split(c.Get("tnames"), ","), strings.Split(c.Get("tseqs"), ","), layout{width: 50})
+	qFa = renderFasta(splitNames(c.Get("qnames")), strings.Split(c.Get("qseqs"), ","), layout{width: 50})
+	tFa = renderFasta(splitNames(c.Get("tnames")), strings.Split(c.Get("tseqs"), ","), layout{width: 50})
 	return
 }
 
